@@ -76,6 +76,9 @@ theorem visitsEq_stableOps (v0 : List Visit) : StableOps (fun s => s.visits = v0
       | some rs => cases rs <;> exact h
   argv s i v h := h
   argc s n h := h
+  close s f h := h
+  enter s h := h
+  leave s h := h
 
 theorem execOps_visits (os : List Op) (s : St) : (execOps os s).2.visits = s.visits :=
   execOps_preserves (visitsEq_stableOps s.visits) os s rfl
